@@ -319,9 +319,6 @@ Section RT.
   Lemma mid_slot i w s p : (i <= length vs)%nat -> inv_mid i w s p -> nth i (p_vals s) VNone = w.
   Proof. intros Hi [Mv _ _ _ _]. rewrite Mv. rewrite <- (firstn_len_i i) at 1 by lia. apply nth_app_mid. Qed.
 
-  Lemma fuel_S e : wf_val f sc (fk e) VNone = true \/ True -> True.
-  Proof. auto. Qed.
-
   Lemma step_seq c i g k0 : nth_error fs i = Some g -> fk g = KSeq k0 -> seq_sub_ok k0 = true ->
     forall l old es x k s p pre,
     (forall e, In e l -> is_none e = false /\ wf_val f sc k0 e = true /\ small (enc_val f sc (ftyp g) k0 e)) ->
